@@ -17,6 +17,11 @@ REQUESTS = [
     "POST:68747470733a2f2f6578616d706c652e636f6d2f75706c6f6164:content-type=746578742f706c61696e",
     "GET:68747470733a2f2f612f783f793d7a:x-a=31;x-a=32;accept=2a2f2a",
 ]
+# CONNECT (authority-form target) and extended CONNECT (RFC 9220: `:protocol`)
+CONNECTS = ["CONNECT:613a343433:-", "CONNECT+webtransport:68747470733a2f2f612f7774:-", "CONNECT+websocket:68747470733a2f2f612f63:x-a=31"]
+# shutdown(n): n requests past the last accepted one; the GOAWAY id 4*(k+n) needs a 1/2/4/8-byte varint, and saturates
+SHUT_N = [0, 1, 2, 3, 15, 16, 17, 4095, 4096, 2**20, 2**28 - 1, 2**28, 2**30, 2**59, 2**60, 2**62 - 1, 2**62, 2**64 - 1]
+CODES = [0, 0x100, 0x10c, 0x10d, 0x33, 2**30, 2**62 - 1]
 RESPONSES = ["200:-", "404:content-length=30", "200:server=6833;x-long=" + "61" * 70]
 TRAILERS = ["-", "x-t=31", "x-t=31;x-u=" + "62" * 40]
 
@@ -312,10 +317,11 @@ class C14(Prop):
             if limited and rng.random() < 0.6:
                 ops.extend(grants(rng.randrange(1, 5)))
 
-        if limited and rng.random() < 0.7:
-            # let the connection come up (or not quite)
-            ops.extend(["gu3"] if rng.random() < 0.7 else [])
-            ops.extend(["gw%d:%d" % (s, rng.choice([1, 30, 100])) for s in own[:3] if rng.random() < 0.9])
+        if limited and rng.random() < 0.9:
+            # let the connection come up: a `q<sid>` / `snd` op posted before `build` has returned finds no task (`no-task`)
+            # and exercises nothing; one program in ten still starts without the credit (build under back-pressure)
+            ops.extend(["gu3"] if rng.random() < 0.93 else [])
+            ops.extend(["gw%d:%d" % (s, rng.choice([30, 100, 100])) for s in own[:3] if rng.random() < 0.97])
         if rng.random() < 0.5:
             ops += ["o%d" % peer_ctl, "s%d:000400" % peer_ctl]
             if not server and rng.random() < 0.8:
@@ -324,10 +330,16 @@ class C14(Prop):
                 ops.append("conn.A")
         nreq = rng.choice([1, 1, 2, 3])
         main = "conn" if server else "drv"
+        shut = lambda: rng.choice(SHUT_N) if rng.random() < 0.5 else rng.randrange(0, 3)
+        senders = ["snd"]
         for i in range(nreq):
             sid = 4 * i
             sids.append(sid)
-            rq = rng.choice(REQUESTS)
+            rq = rng.choice(REQUESTS + CONNECTS) if rng.random() < 0.25 else rng.choice(REQUESTS)
+            if not server and rng.random() < 0.25:
+                # `SendRequest::clone`: the clone is task `snd<k>`; requests go through any live handle
+                ops.append("%s.cl" % rng.choice(senders))
+                senders.append("snd%d" % (len(senders) + 1))
             if server:
                 ops += ["o%d" % sid, "s%d:%s" % (sid, hx(self.request_frame(rq)))]
                 if rng.random() < 0.3:
@@ -337,46 +349,70 @@ class C14(Prop):
                 mfs_cfg = ",".join(p for p in cfgs.split(",") if p.startswith("mfs=")) or "g0"
                 ops += self.hinted("q%d.res" % sid, "res", rq, mfs_cfg)
             else:
-                ops += self.hinted("snd.R:" + rq, "R", rq)
+                ops += self.hinted("%s.R:%s" % (rng.choice(senders), rq), "R", rq)
+                if limited and rng.random() < 0.85:
+                    # `send_request` returns (and the task `q<sid>` exists) once the HEADERS frame is through: credit for it
+                    ops += ["gb1", "gw%d:%d" % (sid, rng.choice([60, 100, 200]))]
             maybe_grants()
+            # the handle on which the send calls are made: the send half after `split`
+            q = "q%d" % sid
+            if rng.random() < 0.12:
+                ops.append("%s.sp" % q)
+                q += "s"
             calls = []
             if server and rng.random() < 0.9:
                 rs = rng.choice(RESPONSES)
-                calls.append(self.hinted("q%d.sr:%s" % (sid, rs), "sr", rs))
+                calls.append(self.hinted("%s.sr:%s" % (q, rs), "sr", rs))
             for _ in range(rng.choice([0, 1, 1, 2, 3])):
                 n = rng.choice(SIZES[:5] + ([rng.choice([16383, 16384, 3000, 5000])] if big_bodies else [5, 17, 100]))
-                calls.append(["q%d.sd:%s" % (sid, hx(body(n, rng)))])
+                calls.append(["%s.sd:%s" % (q, hx(body(n, rng)))])
             if rng.random() < 0.4:
                 tr = rng.choice(TRAILERS)
-                calls.append(self.hinted("q%d.st:%s" % (sid, tr), "st", tr))
+                calls.append(self.hinted("%s.st:%s" % (q, tr), "st", tr))
             if rng.random() < 0.25:
                 rng.shuffle(calls)   # any order: data before the response, trailers first, ...
+            # receive-side calls / events in between: `stop_sending`, the peer's RESET_STREAM (no effect on what is written)
+            if rng.random() < 0.15:
+                calls.insert(rng.randrange(0, len(calls) + 1), ["q%d.ss:%d" % (sid, rng.choice(CODES))])
+            if rng.random() < 0.12:
+                calls.insert(rng.randrange(0, len(calls) + 1), ["r%d:%d" % (sid, rng.choice(CODES))])
+            # the peer's STOP_SENDING anywhere behind the first call (a client's `send_request` has returned by then when the
+            # credit is unlimited; under limits the request may still be in flight: servers only): later calls write nothing
+            if calls and rng.random() < 0.12 and (server or not limited):
+                calls.insert(rng.randrange(1, len(calls) + 1), ["x%d:%d" % (sid, rng.choice(CODES))])
             r = rng.random()
-            if r < 0.7:
-                calls.append(["q%d.fi" % sid])
+            if r < 0.6:
+                calls.append(["%s.fi" % q])
                 if rng.random() < 0.1:
-                    calls.append(["q%d.fi" % sid])
+                    calls.append(["%s.fi" % q])
+            elif r < 0.7:
+                calls.append(["%s.dr" % q])
             elif r < 0.8:
-                calls.append(["q%d.dr" % sid])
+                # `stop_stream(code)`: RESET_STREAM, the last thing done to the send side
+                calls.append(["%s.rs:%d" % (q, rng.choice(CODES))])
+            elif r < 0.88:
+                # the task is dropped with its handle, possibly in the middle of a write that waits for credit (outside R-14:
+                # the stream may end inside a frame, the judge is told by the op)
+                calls.append(["%s.kill?" % q])
             for c in calls:
                 ops += c
                 maybe_grants()
             if rng.random() < 0.35:
-                ops.append("%s.S:%d" % (main, rng.randrange(0, 3)) if server else "drv.S")
+                ops.append("%s.S:%d" % (main, shut()) if server else "drv.S")
                 maybe_grants()
                 if server:
                     # which later arrivals a server that is shutting down still accepts, and when
                     # `accept` then returns `None`, is C08's/C09's subject: no new requests here
                     if rng.random() < 0.5:
-                        ops.append("conn.S:%d" % rng.randrange(0, 3))
+                        ops.append("conn.S:%d" % shut())
                     break
         r = rng.random()
         if r < 0.3:
-            ops.append("%s.S:%d" % (main, rng.randrange(0, 3)) if server else "drv.S")
+            ops.append("%s.S:%d" % (main, shut()) if server else "drv.S")
         elif r < 0.4:
             ops.append(main + ".D")
         elif r < 0.45 and not server:
-            ops.append("snd.dr")
+            ops.append("%s.dr" % rng.choice(senders))
         if limited and rng.random() < 0.6:
             # enough credit for everything that is still waiting
             ops += ["gu4", "gb3"] + ["gw%d:100000" % s for s in own + sids]
@@ -658,7 +694,7 @@ class C14(Prop):
         ops = line.split()[3:]
         if re.search(r"(^| )1[45]:sh=[^- ]", impl):
             return False    # h3 has opened its grease stream and written on it
-        return not any(o.split(".")[-1].split(":")[0] in ("R", "sr", "sd", "st", "fi", "S") for o in ops if "." in o)
+        return not any(o.split(".")[-1].split(":")[0] in ("R", "sr", "sd", "st", "fi", "S", "rs") for o in ops if "." in o)
 
     def shrink_candidates(self, line):
         w = line.split()
